@@ -258,7 +258,7 @@ def r_name_tables(ctx, rid, floor=2, printer=True):
         if not m or fn.macro:
             continue
         ty = m.group(1)
-        rows = guards.decision_table(ctx, fn, 3, True)
+        rows = guards.decision_table(ctx, fn, 3, True, plain=True)
         disp = {}
         for r in rows:
             mv = re.match(r'^write_str\(f, "([^"]*)"\)$', r['value'] or '')
@@ -274,7 +274,7 @@ def r_name_tables(ctx, rid, floor=2, printer=True):
         parser = None
         for cand in ('<%s as std::str::FromStr>::from_str' % ty, '<%s as parse::PestParse>::parse' % ty):
             if cand in fx.F:
-                prow = guards.decision_table(ctx, fx.F[cand], 3, True)
+                prow = guards.decision_table(ctx, fx.F[cand], 3, True, plain=True)
                 if any(c.startswith('eq<str>("') for r in prow for c in r['conds']):
                     parser = (cand, prow)
                     break
@@ -333,7 +333,7 @@ def r_number_tokens(ctx, rid, floor=3):
 
 def check(ctx):
     from . import c04
-    c04.group_rule(ctx, 'R16.5', r"^(<parse::ExprTree<'_> as std::fmt::Display>::fmt|<pattern::Pattern as std::fmt::Display>::fmt|types::TypeInner::<A>::display)$", 'parse-tree, pattern and type printers: complete pre-order state machines', 3)
+    c04.group_rule(ctx, 'R16.5', r"^(<parse::ExprTree<'_> as std::fmt::Display>::fmt|<pattern::Pattern as std::fmt::Display>::fmt|types::TypeInner::<A>::display|<(parse|str)::\w+ as std::fmt::Display>::fmt|<types::(AliasedType|BuiltinAlias|UIntType) as std::fmt::Display>::fmt|<num::(NonZeroPow2Usize|Pow2Usize) as std::fmt::Display>::fmt)$", 'parse-tree, pattern, name and type printers: every piece and displayed component in order', 25)
     r_forms(ctx, 'R16.4')
     r_tokens(ctx, 'R16.1')
     r_variants(ctx, 'R16.2')
@@ -341,3 +341,5 @@ def check(ctx):
     r_name_tables(ctx, 'R16.6')
     r_number_tokens(ctx, 'R16.7')
     c04.r_reviewed_grammar(ctx, 'R16.8', roots={'program'})
+    c04.group_rule(ctx, 'R16.10', r"^(<(parse::ExprTree<'_>|&pattern::Pattern|&types::AliasedType) as miniscript::iter::TreeLike>::as_node|parse::MatchPattern::as_\w+|types::AliasedType::as_(alias|builtin))$", 'children of parse-tree, pattern and type nodes in the order the printers visit them', 4)
+    c04.group_rule(ctx, 'R16.9', c04.PARSERS, 'parse-tree construction (every PestParse::parse): which child becomes which field, in which order', 30)
